@@ -528,6 +528,15 @@ def run(ctx, proof):
                     if tab1 is not None:
                         tab1 = [0.0 if x == 0 else x for x in tab1]
                         fails += class_oracle(tab1, n, mono)
+                    # the first game is USED in place (as normalize_game / set_values do) before the second, identically
+                    # seeded call: a generator handing out a shared or cached object shows up as a different second table
+                    try:
+                        if hasattr(game1, "set_values"):
+                            game1.set_values(np.arange(2 ** n, dtype=float) + 17.0)
+                        elif hasattr(game1, "_graph_matrix"):
+                            game1._graph_matrix += 17.0
+                    except Exception:
+                        pass
                     game2, exc2 = plain_call(key, n, seed)
                     if exc2 is not None:
                         fails.append(f"second identically seeded call raises {exc_summary(exc2)}")
